@@ -17,10 +17,10 @@ ASSUMPTIONS = ["an upload error reply makes the library raise by design; the rai
                "small generation batches (the statement's quantifier); the production batch (812) is used in a few thorough histories",
                "histories are sampled"]
 REQUIRED = ["histories", "checkpoints", "uploads_seen", "keys_offered", "keys_confirmed", "unconfirmed_uploads", "reoffers_seen",
-            "keys_consumed", "replays", "restarts", "signatures_verified", "error_replies", "overlap_cases"]
+            "keys_consumed", "replays", "restarts", "signatures_verified", "error_replies", "overlap_cases", "other_requests_during_upload"]
 TIMEOUT = {"quick": 600, "thorough": 7200}
 
-EVENTS = ["login", "ask-keys", "ask-keys-overlap", "ask-keys-lost-reply", "ask-keys-error", "disconnect", "restart", "peer-first-message", "replay-first-message",
+EVENTS = ["login", "ask-keys", "ask-keys-overlap", "other-requests-during-upload", "ask-keys-lost-reply", "ask-keys-error", "disconnect", "restart", "peer-first-message", "replay-first-message",
           "login-lost-reply", "server-closes"]
 
 
@@ -209,6 +209,44 @@ def one_history(acc, seed, tag, batch=None):
                 if mode == "lose-last":
                     W.server_close(A)
                     run_actions([])
+            elif ev == "other-requests-during-upload":
+                # while an upload is unanswered the application issues other requests (pings) that the server answers at once:
+                # their results are not the upload's confirmation, whatever ids they carry
+                if not c.ready():
+                    continue
+                from yowsup.layers.protocol_iq.protocolentities import PingIqProtocolEntity
+                W.server.delay_upload_reply.add(A)
+                W.server.ask_for_keys(A, r.randint(0, 5))
+                run_actions([])
+                k = r.choice([1, 2, 3, 5])
+                srv_acc_ = W.server.accounts.get(c.jid)
+                up_id = srv_acc_.uploads[-1]["id"] if srv_acc_ and srv_acc_.uploads else None
+                ping_ids = []
+
+                def mk_ping():
+                    e_ = PingIqProtocolEntity()
+                    ping_ids.append(e_.getId())
+                    return e_
+                j = 0
+                # at least k pings; and, where ids are counters, keep going (bounded) until the pings' ids have passed the
+                # outstanding upload's id, so that an id scheme with per-kind counters would produce the same id
+                while j < k or (j < 40 and up_id and up_id.isdigit() and ping_ids and ping_ids[-1].isdigit() and int(ping_ids[-1]) < int(up_id)):
+                    run_actions([{"op": "send", "who": A, "kind": "ping", "uid": "ping%d-%d" % (ei, j), "build": mk_ping}])
+                    j += 1
+                k = j
+                if up_id in ping_ids:
+                    acc.count("request_ids_collided_with_upload")
+                acc.count("other_requests_during_upload", k)
+                W.server.delay_upload_reply.discard(A)
+                mode = r.choice(["release", "lose", "lose"])
+                if mode == "release":
+                    W.server.release_upload_replies(A)
+                    run_actions([])
+                else:
+                    W.server.delayed_results.pop(A, None)
+                    W.server_close(A)
+                    run_actions([])
+                    nontriv = True
             elif ev == "disconnect":
                 if c.connected:
                     run_actions([{"op": "disconnect", "who": A}])
